@@ -155,7 +155,7 @@ class C18Machine(RuleBasedStateMachine):
             self.REC.cls('threads-%d' % nthreads)
         finally:
             sys.setswitchinterval(old)
-        if self.REC.evaluations % 40 == 0:
+        if len(self.REC.samples) < 2 or self.REC.evaluations % 40 == 0:
             self.REC.sample({'module_text': self.text, 'codec': self.codec, 'history': self.history[:30],
                              'pool_size': len(self.pool), 'threads': nthreads})
 
